@@ -11,7 +11,7 @@ PIPE_NOTE = ('Trusted: TLC; the virtual-time asyncio loop (integer-microsecond c
 CHECKS = {
  'C03': (True, 'model_checking',
          'TLA+ spec NdnPit checked exhaustively by TLC (focused configurations, both front-ends, liveness on a small one); TLC graph transition cover + random schedules executed on appv2.NDNApp and app.NDNApp over a virtual-time loop; every execution validated by TLC (NdnPitTrace)',
-         'TLC explores every interleaving of express / Data / Nack / timer expiry / validator completion / caller cancel / shutdown / junk over up to 3 pending Interests on same and nested names (CanBePrefix, implicit digest, lifetimes 1-2 ticks) and checks OnceOnly, RightOutcome, NoResidue, AllAndOnlyMatching, NoUnvalidatedData, JunkInert and Finishes. Schedules covering every transition of a smaller graph, and random larger schedules (6 Interests, 6 names, 40 events, same-instant races in both orders), are driven into both real front-ends; after every stimulus the outcome of every awaitable, its completion instant, the pending-table size, validator invocations and any internal error are recorded and the trace is accepted only if it is a behaviour of NdnPit.',
+         'TLC explores every interleaving of express / Data / Nack / timer expiry / validator completion / caller cancel / shutdown / junk / reconnect over up to 3 pending Interests on same and nested names (CanBePrefix, implicit digest and both, lifetimes 1-2 ticks and the default lifetime, deferred await, cancellation in flight) and checks OnceOnly, RightOutcome, NoResidue, AllAndOnlyMatching, NoUnvalidatedData, JunkInert and Finishes. Schedules covering every transition of a smaller graph, and random larger schedules (6 Interests, 6 names, 40 events, same-instant races in both orders), are driven into both real front-ends; after every stimulus the outcome of every awaitable, its completion instant, the pending-table size, validator invocations and any internal error are recorded and the trace is accepted only if it is a behaviour of NdnPit. The implementation-level model NdnPitImpl (trie of node objects, waiter references, validator tasks) is checked to refine NdnPit. The connection life cycle (AppLife.tla: main_loop ending by shutdown / peer / cancellation / failing after_start, reconnect) is replayed into both front-ends and the pending / outcome variables compared.',
          PIPE_NOTE + ' Known finding KF-legacy-slow-validator is modelled as deviation legacySlowValidator (off in the strict pass).',
          'DESIGN.md 5.1, 6/C03'),
  'C04': (True, 'model_checking',
@@ -117,7 +117,7 @@ CHECKS.update({
  'C17': (True, 'model_checking',
          'TLA+/TLC model checking of NfdReg + spec-to-code graph walk (belief-set conformance) on appv2.NDNApp+NfdRegister and legacy NDNApp under a scripted clock + code-to-spec trace validation (NfdRegTrace); parse_response judged against a TLA+ reference (NfdRegResp)',
          'Exhaustive model checking of an implementation-shaped TLA+ model of both registration front-ends (semaphore, timestamp guard, clock free between any two reads, 8 forwarder reply kinds, declared routes over reconnects) for OneAtATime, TsStrictlyIncreasing, SuccessIff200, NeverRaises, ExactlyOneCommand, RoutesOncePerConnection; bound to the code by replaying transition-cover stimulus sequences of the state graphs on both front-ends under a scripted clock and by TLC trace validation of random 8-call schedules; every command Interest decoded and its digest/signature recomputed by an independent strict TLV reader; parse_response judged against a TLA+ reference on TLC-enumerated and random ControlResponses.',
-         'Bounded: <=3 concurrent calls (A/B), 8 (C); clock 0..5; Disconnect only when idle; a silent forwarder only with one command in flight; wall clock assumed monotone; v2 validation failure injected by substituting the validator at NDNApp.express.',
+         'Bounded: <=3 concurrent calls (A/B), 8 (C); clock 0..5; in NfdReg Disconnect only when idle (a connection ending at any point of the auto-registration is covered by AppLife.tla, whose command / handler variables are replayed into both front-ends in stage B); a silent forwarder only with one command in flight; wall clock assumed monotone; v2 validation failure injected by substituting the validator at NDNApp.express.',
          'DESIGN.md 5.8, 6/C17'),
 })
 
